@@ -110,7 +110,8 @@ def run_property(mod, tier: str, seed: int, shrink_budget=80, max_report=24) -> 
     run = common.Run(mod.PID, tier, seed, rule=mod.RULE)
     run.assumptions = list(getattr(mod, "ASSUMPTIONS", []))
     run.known_matchers = dict(getattr(mod, "KNOWN_MATCHERS", {}))
-    run.lean = common.prepare_lean(mod.MODULES)
+    run.lean = common.prepare_lean(mod.MODULES, recheck=(tier == "thorough"))
+    run.extra["leanchecker"] = run.lean.leanchecker
     if not run.lean.driver_ok:
         common.log("driver failed to build:\n" + run.lean.build_log[-3000:])
         run.lean.obligations.append({"name": "driver-build", "file": "lean/Driver.lean", "status": "failed", "axioms": None})
